@@ -15,6 +15,11 @@ import DclabModel.DriveUtil
     resolve U <n> <univ>
     resolveold …                       the same without the F14 type guard
         → `feats=<sorted> data=<f>:<rows>|… opened=<loc>;… depth=<k> used=<n>`
+    basins L <dir> <name> | basins U <n>
+        → `basins=<key>:<format>:<map|same>:<loc|->;…`   the list `ds.basins` in order (`basinOrder`)
+    verify <rid|x> <rid|x> <0|1> <ar;ar;…>
+        → `res=1,0,…`   answers of a history of `verify_basin(run_identifier=r)` calls on one basin
+          object (referrer id, basin id, mapped; per call a = available, r = run_identifier)
 -/
 open DclabModel.Basin DclabModel.DriveUtil
 
@@ -69,6 +74,17 @@ def showRes (univ : List Nat) (r : Res) : String :=
   let opened := sortStrings ((r.opened.map showLoc).eraseDups)
   s!"feats={showList feats} data={if data.isEmpty then "-" else joinWith "|" data} " ++
   s!"opened={if opened.isEmpty then "-" else joinWith ";" opened} depth={r.depth} used={r.used.length}"
+
+def showFormat : BFormat → String
+  | .h5dataset => "h5dataset" | .hdf5 => "hdf5" | .http => "http" | .s3 => "s3" | .dcor => "dcor"
+  | .other => "other"
+
+/-- `ds.basins` in order: `<key>:<format>:<map|same>:<loc|->` separated by `;` -/
+def showOrder (l : List (Nat × BFormat × Option Nat × Option Loc)) : String :=
+  if l.isEmpty then "basins=-" else
+  "basins=" ++ joinWith ";" (l.map fun e =>
+    s!"{e.1}:{showFormat e.2.1}:{match e.2.2.1 with | none => "same" | some k => toString k}:" ++
+    (match e.2.2.2 with | none => "-" | some x => showLoc x))
 
 def handle (d : D) (line : String) : D × String :=
   match words line with
@@ -137,6 +153,34 @@ def handle (d : D) (line : String) : D × String :=
         | none => (d, "err")
       | _, _ => (d, "bad-op")
     else (d, "bad-op")
+  | ["basins", "L", dir, name] =>
+    match dir.toNat?, name.toNat? with
+    | some dir, some name =>
+      match lk (dir, name) d.w.files with
+      | some f => (d, showOrder (basinOrder d.w true ⟨some (.abs dir name), f⟩ []))
+      | none => (d, "err")
+    | _, _ => (d, "bad-op")
+  | ["basins", "U", n] =>
+    match n.toNat? with
+    | some n =>
+      match lk n d.w.urls with
+      | some f => (d, showOrder (basinOrder d.w true ⟨some (.url n), f⟩ []))
+      | none => (d, "err")
+    | _ => (d, "bad-op")
+  | ["verify", r, b, m, calls] =>
+    let r' : Option (Option Ident) := if r = "x" then some none else (parseList r).map some
+    let b' : Option (Option Ident) := if b = "x" then some none else (parseList b).map some
+    let cs : Option (List (Bool × Bool)) := (calls.splitOn ";").mapM fun c =>
+      match c.toList with
+      | [a, u] => if (a = '0' || a = '1') && (u = '0' || u = '1') then some (a = '1', u = '1') else none
+      | _ => none
+    match r', b', cs with
+    | some r, some b, some cs =>
+      if m = "0" || m = "1" then
+        (d, "res=" ++ joinWith "," ((runVerifyBasin r b (m = "1") false cs).map fun x =>
+          if x then "1" else "0"))
+      else (d, "bad-op")
+    | _, _, _ => (d, "bad-op")
   | _ => (d, "bad-op")
 
 def main : IO Unit := mainLoop ({} : D) handle
